@@ -49,8 +49,11 @@ def willManufacture (s : St) : Bool :=
   | .empty => true
   | .none => (s.store 1).isNone
 
-/-- TPMLIB_MainInit with its observed result -/
-def mainInit (s : St) (ok : Bool) : St := { (if ok then clearCache s else s) with locked := true, running := ok }
+/-- TPMLIB_MainInit with its observed result. A TPM 2 whose MainInit fails after the storage callbacks (state of the other
+    TPM version in storage, a profile it cannot be manufactured with) is left powered on in failure mode
+    (`_rpc__Signal_PowerOn` runs on every path of TPM2_MainInit): until Terminate the API treats it as running. -/
+def mainInit (s : St) (ok : Bool) : St :=
+  { (if ok then clearCache s else s) with locked := true, running := ok || (s.choice == .v2) }
 
 def terminate (s : St) : St := { s with locked := false, running := false }
 
